@@ -236,3 +236,42 @@ def flatten_and(c):
     if isinstance(c, Term) and c.op == "gt" and isinstance(c.args[0], Term) and c.args[0].op == "min":
         return [T("lt", c.args[1], b) for b in c.args[0].args]
     return [c]
+
+
+def lift_broadcast(t, lv, n, shp, dim_term):
+    """[f(X[j], Y) for j in range(n)] with X[j] a row (D,), Y invariant of shape (m, D) and f
+    elementwise is the broadcast f(X[:, None, :], Y[None, :, :]) of shape (n, m, D);
+    returns (term, (n, m, D)) or None"""
+    memo = {}
+    info = {"m": None, "d": None, "hit": False}
+
+    def rec(x):
+        if not isinstance(x, Term):
+            return x
+        if x in memo:
+            return memo[x]
+        r = None
+        if not mentions(x, lv):
+            sh = shp(x)
+            if sh is not None and len(sh) == 2:
+                if info["m"] is None or (info["m"], info["d"]) == tuple(sh):
+                    info["m"], info["d"] = sh
+                    r = T("reshape1", x, const(1), dim_term(sh[0]), dim_term(sh[1]))
+            elif sh is not None and len(sh) <= 1:
+                r = x
+        elif x.op == "getitem" and x.args[1] == lv and not mentions(x.args[0], lv):
+            sh = shp(x.args[0])
+            if sh is not None and len(sh) == 2 and sh[0] == n and (info["d"] is None or info["d"] == sh[1]):
+                info["d"] = sh[1]
+                info["hit"] = True
+                r = T("reshape1", x.args[0], dim_term(n), const(1), dim_term(sh[1]))
+        elif x.op in ELEMENTWISE:
+            parts = [rec(a) if isinstance(a, Term) else a for a in x.args]
+            r = None if any(p is None for p in parts) else T(x.op, *parts)
+        memo[x] = r
+        return r
+
+    out = rec(t)
+    if out is None or not info["hit"] or info["m"] is None:
+        return None
+    return out, (n, info["m"], info["d"])
